@@ -490,6 +490,11 @@ func c16IncludeUnit(tier string) *Unit {
 				}
 				root := "version: '3'\n" + inc + "tasks:\n  t:\n    cmds: [{task: 'inc:it'}]\n  short: echo s\n"
 				docs = append(docs, c16Doc{Pos: "inc.yml=" + vn, Shape: fmt.Sprintf("include-options-mask-%d", mask), Files: map[string]string{"Taskfile.yml": root, "inc.yml": incVariants[vn], "sub/.keep": ""}})
+				if bitsSet(mask) <= 1 {
+					// the same with an included file whose path sorts before the root Taskfile's
+					root2 := strings.Replace(root, "./inc.yml", "./Build.yml", 1)
+					docs = append(docs, c16Doc{Pos: "Build.yml=" + vn, Shape: fmt.Sprintf("include-options-mask-%d", mask), Files: map[string]string{"Taskfile.yml": root2, "Build.yml": incVariants[vn], "sub/.keep": ""}})
+				}
 			}
 		}
 		return c16RunBatch(name, docs, dir, deadline)
@@ -587,7 +592,33 @@ func c16Units(tier string) []*Unit {
 			return docs
 		}, nil))
 	}
-	us = append(us, c16IncludeUnit(tier))
+	// mixed line terminators: one line of the document ends differently from all the others
+	us = append(us, c16TextUnit("line-terminators/mixed", func() []map[string]string {
+		var docs []map[string]string
+		lines := []string{"version: '3'", "vars:", "  A: a", "tasks:", "  t:", "    cmds:", "      - echo hi", ""}
+		for _, pair := range [][2]string{{"\n", "\r"}, {"\n", "\r\n"}, {"\r\n", "\n"}, {"\n", "\u2028"}, {"\r", "\n"}} {
+			for odd := 0; odd < len(lines)-1; odd++ {
+				for bad := 0; bad < len(lines)-1; bad++ {
+					for _, junk := range []string{"    cmds: {a: b}", "  t: [1, {a: }", "    deps: 5"} {
+						doc := ""
+						for i, l := range lines[:len(lines)-1] {
+							if i == bad {
+								l = junk
+							}
+							t := pair[0]
+							if i == odd {
+								t = pair[1]
+							}
+							doc += l + t
+						}
+						docs = append(docs, map[string]string{"Taskfile.yml": doc})
+					}
+				}
+			}
+		}
+		return docs
+	}, nil))
+	us = append(us, c16IncludeUnit(tier), c16CommandTextUnit())
 	// include locations
 	for _, remote := range []string{"0", "1"} {
 		remote := remote
@@ -615,4 +646,46 @@ func c16Units(tier string) []*Unit {
 		return docs
 	}, nil))
 	return us
+}
+
+// Command texts that exercise unusual corners of the embedded shell interpreter's builtins: a
+// script that the interpreter cannot handle fails like any other command (Task does not panic).
+func c16CommandTextUnit() *Unit {
+	name := "command-texts/interpreter-builtins"
+	return &Unit{Name: name, Weight: 2, Custom: func(u *Unit, dir string, deadline time.Time) *vlab.UnitResult {
+		res := &vlab.UnitResult{SigCounts: map[string]int{}, Extra: map[string]any{}}
+		n := 0
+		var samples []any
+		cmds := []string{
+			`printf '%s\0' x`, `printf '\0'`, `printf '%d' x`, `printf %`, `printf '%*d' 99999 1`, `printf '%c' ''`, `printf '\x'`, `printf '%b' '\0777'`,
+			`echo $((1/0))`, `echo $((1%0))`, `echo ${x:?unset}`, `echo ${#}`, `echo ${x:1:-5}`, `echo "${x[@]:1}"`, `x=(a b); echo ${x[99]}`, `x=abc; echo ${x:5:2}`, `echo ${!x}`,
+			`shopt -s errexit`, `shopt -s nosuchopt`, `shopt -p`, `set -o`, `set -o nosuch`, `set --`, `shift 5`, `exit 999`, `exit -1`, `return 3`, `trap`, `trap 'echo x' NOSUCH`, `wait`, `wait 99999`, `cd /nonexistent/x`, `cd ''`,
+			`[[ a =~ ( ]]`, `[[ -v ]]`, `[ a -eq b ]`, `test -t`, `(( `, `$(`, `echo "$(exit 3)"`, `: > /dev/full`, `readonly x=1; x=2`, `unset -f nosuch`, `type nosuch`, `command -v`, `eval ')'`, `. /nonexistent`, `source`, `exec`, `builtin nosuch`, `getopts`, `let`, `let 1/0`, `declare -A m; m[]=1`, `local x`, `umask 999`, `alias x=; x`, `pushd /; popd; popd`, `dirs -c; popd`, `printf '%(%Y)T' -1`, `mapfile < /dev/null`, `echo {1..3..0}`, `echo {a..z..-0}`,
+		}
+		for i, c := range cmds {
+			tf := "version: '3'\ntasks:\n  t:\n    cmds:\n      - " + vlabQ(c) + "\n  v:\n    vars:\n      X: {sh: " + vlabQ(c) + "}\n    cmds:\n      - echo {{.X}}\n  s:\n    status:\n      - " + vlabQ(c) + "\n    cmds:\n      - 'true'\n"
+			os.RemoveAll(dir)
+			os.MkdirAll(dir, 0o755)
+			os.WriteFile(filepath.Join(dir, "Taskfile.yml"), []byte(tf), 0o644)
+			for _, req := range []string{"t", "v", "s"} {
+				_, se, rc := RunCLI(dir, nil, "", req)
+				n++
+				if i < 2 && req == "t" {
+					samples = append(samples, map[string]any{"command": c, "status": rc, "stderr": firstN(se, 100)})
+				}
+				if cr := c16Crash(se, rc); cr != "" {
+					v := vlab.V("C16", cr, "command_text:"+panicSite(se), fmt.Sprintf("command %q (as %s): %s", c, map[string]string{"t": "a task command", "v": "a dynamic variable", "s": "a status command"}[req], firstN(se, 400)))
+					v.Scenario = name
+					v.Input = map[string]any{"taskfile": tf, "request": req}
+					res.SigCounts[v.Sig]++
+					if res.SigCounts[v.Sig] == 1 {
+						res.Violations = append(res.Violations, v)
+					}
+				}
+			}
+		}
+		res.Extra["samples"] = samples
+		res.Stats = vlab.Stats{Scenario: name, Execs: n, States: n, Transitions: n, Outcomes: 2, Exhaustive: true}
+		return res
+	}}
 }
